@@ -99,16 +99,16 @@ def r15_3(ctx):
     expected = {
         "mbox.Mailbox.msg_set_to_msg_seq_set": (
             ["if from_uids:\n    seq_max = self.uids[-1] if self.uids else 1\nelse:\n    seq_max = self.num_msgs",
-             "sequence_set_to_list(msg_set, seq_max, uid_cmd=from_uids)"],
+             "sequence_set_to_list(..., seq_max, uid_cmd=from_uids)"],
             "seq_max = uids[-1] (1 when empty) for UID sets, message count otherwise; uid_cmd passed through",
         ),
         "mbox.Mailbox.copy": (
             ["max_msg_key = self.msg_keys[-1]", "uid_vv, uid_max = self.get_uid_from_msg(max_msg_key)", "seq_max = len(self.msg_keys)",
-             "if uid_command:\n    uid_list = sequence_set_to_list(msg_set, uid_max, uid_command)\n    ...\nelse:\n    msg_idxs = sequence_set_to_list(msg_set, seq_max)"],
+             "if uid_command:\n    uid_list = sequence_set_to_list(..., uid_max, uid_command)\n    ...\nelse:\n    msg_idxs = sequence_set_to_list(msg_set, seq_max)"],
             "UID COPY expands against the UID of the last message, COPY against the message count",
         ),
         "search.IMAPSearch._msg_set_numbers": (
-            ["sequence_set_to_list(self.args['msg_set'], set_max, uid_cmd=True)"],
+            ["sequence_set_to_list(..., set_max, uid_cmd=True)"],
             "search helper expands against the maximum its caller passes",
         ),
     }
@@ -120,6 +120,17 @@ def r15_3(ctx):
         pats, what = expected[fi.key]
         pm = pm_of(p, fi)
         missing = [x for x in pats if not pm.has(x)]
+        # the set itself is handed over raw, or cut down by the clip helper against the *same* maximum (the helper replaces
+        # `*` by its own maximum, so a different one would change what `*` denotes)
+        a0 = c.args[0] if c.args else None
+        if isinstance(a0, ast.Call):
+            if not (call_name(a0) == "clip_sequence_set" and len(a0.args) >= 2 and len(c.args) >= 2 and norm(a0.args[1]) == norm(c.args[1])):
+                ctx.bad("R15.3", fi.module, fi.qual, f"{fi.name}: set argument of sequence_set_to_list", f"the set is rewritten by `{norm(a0, 80)}` before it is interpreted: not the clip helper with the maximum the interpreter gets", c.lineno)
+                continue
+        for asg in body_walk(fi.node):
+            if isinstance(asg, ast.Assign) and isinstance(asg.value, ast.Call) and call_name(asg.value) == "clip_sequence_set" and isinstance(a0, ast.Name) and norm(asg.targets[0]) == a0.id:
+                if not (len(asg.value.args) >= 2 and len(c.args) >= 2 and norm(asg.value.args[1]) == norm(c.args[1])):
+                    missing.append(f"{norm(asg)} clips against a different maximum than the interpreter gets")
         if not missing:
             ctx.ok("R15.3", where(fi), what)
         else:
@@ -215,6 +226,31 @@ def r15_4(ctx):
         ctx.ok("R15.4", where(cp), "COPY: UID -> sequence number mapping skips unknown UIDs (+1)")
     else:
         ctx.bad("R15.4", cp.module, cp.qual, "if uid in self._uid_to_idx: msg_idx = self._uid_to_idx[uid] + 1", "UID COPY no longer maps its set through the UID table", cp.node.lineno)
+    # the clip helper (bounds range expansion, C06 R6.6) must not change what a set denotes
+    if "utils.clip_sequence_set" in p.functions:
+        h = p.func("utils.clip_sequence_set")
+        ctx.analysed(h)
+        hp = pm_of(p, h)
+        hchecks = [
+            (
+                hp.has("start, end = (seq_max if x == '*' else x for x in elt)")
+                or hp.has("start, end = [seq_max if x == '*' else x for x in elt]")
+                or (hp.has("start, end = elt") and hp.has("if start == '*':\n    start = seq_max") and hp.has("if end == '*':\n    end = seq_max")),
+                "clip: '*' at either end is the maximum",
+            ),
+            (
+                hp.has("low, high = (min(start, end), max(start, end))") or hp.has("low, high = sorted((start, end))")
+                or hp.has("low, high = (end, start) if start > end else (start, end)"),
+                "clip: a range means the same in either order",
+            ),
+            (hp.has("if low > seq_max:\n    continue"), "clip: only a range that lies entirely above the maximum is dropped (n:* keeps the last message)"),
+            (hp.has("elt = (low, min(high, seq_max))"), "clip: lower end kept, upper end cut to the maximum"),
+        ]
+        for okv, what in hchecks:
+            if okv:
+                ctx.ok("R15.4", where(h), what)
+            else:
+                ctx.bad("R15.4", h.module, h.qual, what, f"the clip helper in front of the interpreter changes what a set denotes - lost: {what}", h.node.lineno)
 
 
 def run(ctx):
